@@ -217,6 +217,8 @@ struct Shared {
     stop: AtomicBool,
     /// 0 = normal, 1 = black hole requested, 2 = established, 3 = could not be established
     blackhole: std::sync::atomic::AtomicU8,
+    /// the server's UDP socket (for `begin_q`: is anything still waiting to be read?)
+    udp_fd: std::sync::atomic::AtomicI32,
     st: Mutex<State>,
 }
 
@@ -563,6 +565,7 @@ impl Server {
         let sh = Arc::new(Shared {
             stop: AtomicBool::new(false),
             blackhole: std::sync::atomic::AtomicU8::new(0),
+            udp_fd: std::sync::atomic::AtomicI32::new(u.as_raw_fd()),
             st: Mutex::new(State {
                 epoch: 0,
                 q_start: Instant::now(),
@@ -591,6 +594,21 @@ impl Server {
 
     /// script switch: the next Q starts now
     fn begin_q(&self, q: &QSpec) {
+        // what the previous query sent belongs to the previous query: on a starved machine the server
+        // thread may not have read it yet — wait (up to 300 ms) until its socket is drained
+        let fd = self.sh.udp_fd.load(Ordering::SeqCst);
+        for _ in 0..150 {
+            let mut pfd = libc::pollfd {
+                fd,
+                events: libc::POLLIN,
+                revents: 0,
+            };
+            let n = unsafe { libc::poll(&mut pfd, 1, 0) };
+            if n <= 0 || pfd.revents & libc::POLLIN == 0 {
+                break;
+            }
+            std::thread::sleep(Duration::from_millis(2));
+        }
         let mut st = self.sh.st.lock().unwrap();
         st.epoch += 1;
         st.prev_id = st.last_id.take().unwrap_or(0);
@@ -1906,7 +1924,13 @@ fn gen_c15(r: &mut Rng, index: u64) -> String {
             }
             _ => {
                 // delayed answer to the first query: before / after the attempt's timeout
-                let p = if qt.is_none() { *r.pick(&[20u64, late]) } else { *r.pick(&[20u64, late, late + 25]) };
+                // (the matching answer keeps a distance from every attempt deadline: on a busy machine an
+                // answer scripted 5 ms before a deadline arrives behind it, and the retransmission that
+                // follows is legitimate)
+                let p = match qt {
+                    None => *r.pick(&[20u64, late]),
+                    Some(t) => *r.pick(&[20u64, t * 5 / 8, t + t / 2]),
+                };
                 udp.push(vec![format!("p{}", p), matching(&q)]);
             }
         }
